@@ -399,9 +399,38 @@ impl Session {
     }
 
     pub async fn open(&mut self, id: &str) -> Result<(), String> {
-        let sock = TcpSocket::new_v4().map_err(|e| e.to_string())?;
-        let local: SocketAddr = format!("{}:0", id).parse().map_err(|_| "bad id".to_string())?;
-        sock.bind(local).map_err(|e| e.to_string())?;
+        // A port of the client's own loopback address.  Orderly closes by the client leave its end in TIME_WAIT for a
+        // minute, and under the thorough tier's load the kernel's ephemeral range of one address can run out
+        // ("Address already in use" at bind): then ports below the ephemeral range are tried, and if need be we wait.
+        let mut sock = TcpSocket::new_v4().map_err(|e| e.to_string())?;
+        let mut bound_ok = false;
+        let mut last_err = String::new();
+        'outer: for attempt in 0..120u32 {
+            let local: SocketAddr = format!("{}:0", id).parse().map_err(|_| "bad id".to_string())?;
+            match sock.bind(local) {
+                Ok(()) => {
+                    bound_ok = true;
+                    break;
+                }
+                Err(e) => last_err = e.to_string(),
+            }
+            for _ in 0..30 {
+                let p: u16 = 1100 + (rand::random::<u16>() % 31000);
+                sock = TcpSocket::new_v4().map_err(|e| e.to_string())?;
+                let local: SocketAddr = format!("{}:{}", id, p).parse().map_err(|_| "bad id".to_string())?;
+                if sock.bind(local).is_ok() {
+                    bound_ok = true;
+                    break 'outer;
+                }
+            }
+            sock = TcpSocket::new_v4().map_err(|e| e.to_string())?;
+            if attempt > 0 {
+                tokio::time::sleep(Duration::from_millis(500)).await;
+            }
+        }
+        if !bound_ok {
+            return Err(format!("no local port: {}", last_err));
+        }
         // the address is known before the server can see the connection: read the counters now
         let bound = sock.local_addr().map_err(|e| e.to_string())?.to_string();
         let (refused_before_open, accepted_before_open) = {
@@ -813,8 +842,20 @@ impl Session {
         let mut issue = None;
         match verb.as_str() {
             "!open" => {
-                if let Err(e) = self.open(id).await {
-                    issue = Some(format!("open failed: {}", e));
+                let mut tries = 0;
+                loop {
+                    match self.open(id).await {
+                        Ok(()) => break,
+                        Err(e) if tries < 4 && (e.contains("Address") || e.contains("address")) => {
+                            // a local port clash (4-tuple still in TIME_WAIT): take another port
+                            tries += 1;
+                            tokio::time::sleep(Duration::from_millis(100)).await;
+                        }
+                        Err(e) => {
+                            issue = Some(format!("open failed: {}", e));
+                            break;
+                        }
+                    }
                 }
             }
             "!close" => self.close(id, false).await,
